@@ -577,10 +577,27 @@ func buildResourceTrafficShapingController(res string, rulesOfRes []*Rule, oldRe
 	// they must not donate their statistic to a modified rule that happens to be listed earlier,
 	// otherwise the unchanged rule is rebuilt from scratch and loses its runtime state.
 	reserved := make(map[*TrafficShapingController]bool, len(oldResTcs))
-	for _, rule := range rulesOfRes {
+	matched := make([]bool, len(rulesOfRes))
+	for i, rule := range rulesOfRes {
 		for _, oldTc := range oldResTcs {
 			if !reserved[oldTc] && oldTc.BoundRule().isEqualsTo(rule) {
 				reserved[oldTc] = true
+				matched[i] = true
+				break
+			}
+		}
+	}
+	// A modified rule - no equal old rule, but an old rule with the same (non-empty) ID whose statistic
+	// it can take over - keeps ITS OWN statistic: that old controller is held back for it, so that
+	// another new or modified rule listed earlier cannot take it, and it is preferred over other donors.
+	keptFor := make(map[*TrafficShapingController]*Rule)
+	for i, rule := range rulesOfRes {
+		if matched[i] || rule.ID == "" {
+			continue
+		}
+		for _, oldTc := range oldResTcs {
+			if !reserved[oldTc] && keptFor[oldTc] == nil && oldTc.BoundRule().ID == rule.ID && oldTc.BoundRule().isStatReusable(rule) {
+				keptFor[oldTc] = rule
 				break
 			}
 		}
@@ -594,9 +611,14 @@ func buildResourceTrafficShapingController(res string, rulesOfRes []*Rule, oldRe
 		if equalIdx < 0 {
 			reuseStatIdx = -1
 			for idx, oldTc := range oldResTcs {
-				if !reserved[oldTc] && oldTc.BoundRule().isStatReusable(rule) {
+				if reserved[oldTc] || !oldTc.BoundRule().isStatReusable(rule) {
+					continue
+				}
+				if owner := keptFor[oldTc]; owner == rule {
 					reuseStatIdx = idx
 					break
+				} else if owner == nil && reuseStatIdx < 0 {
+					reuseStatIdx = idx
 				}
 			}
 		}
